@@ -7,6 +7,8 @@ from .c05 import deviation_ok
 
 PROP = "C06"
 PLAN = {"quick": (1400, 300), "thorough": (80000, 3600)}
+LARGE = (0.02, 19)  # (share, largest size) of the large class of gen.kv: 17+ control points, degree up to 8
+STEP_BUDGET = 20_000_000  # loop line events per outermost call: ten times the default, for the large class
 RULE = ("case = (curve, t, regime, via method|setter); regimes: elevate (p<=4, t in 1..3: Bezier, multi-span, mixed "
         "multiplicities, multiplicity p+1, interior knot 0, rational), reduce-exact (curve built by the reference "
         "elevation of a degree-q curve, reduced by the same t), reduce-generic (random curve, default tolerance or "
@@ -26,11 +28,13 @@ def gen_case(rng, idx, tier):
         want_zero = rng.random() < 0.2
         cur = gen.curve(rng, itv=(F(-1), F(1)) if want_zero else None, want_zero=want_zero or None, nintmax=3)
         d = cv.enc_curve(cur, nt)
-        d.update(regime="elevate", t=rng.choice([1, 1, 2, 3]), via=via)
+        small = len(cur["P"]) <= 8
+        # one elevation in eight by 4..12 at once (the library multiplies one-step matrices; a closed form would differ there)
+        d.update(regime="elevate", t=(rng.choice([1, 1, 2, 3]) if small else 1) if rng.random() < 0.87 or not small else rng.randint(4, 12), via=via)
         return d
     if r < 0.7:
-        base = gen.curve(rng, pmax=3, nintmax=3)
-        t = rng.choice([1, 1, 2])
+        base = gen.curve(rng, pmax=3, nintmax=3, large=False)
+        t = rng.choice([1, 1, 2]) if rng.random() < 0.9 else rng.choice([3, 5, 7, 8])
         el = ref.elevate(lib.case_rc(base["U"], base["P"], base["W"]), t)
         scal = not isinstance(base["P"][0], list)
         P = [pt[0] for pt in el.P] if scal else [list(pt) for pt in el.P]
@@ -38,11 +42,11 @@ def gen_case(rng, idx, tier):
         d.update(regime="reduce-exact", t=t, via=via, base=cv.enc_curve(base, nt), tol=rng.choice(["default", "default", "None"]))
         return d
     if r < 0.9:
-        cur = gen.curve(rng, p=rng.randint(1, 4), nintmax=3)
+        cur = gen.curve(rng, p=rng.randint(1, 4), nintmax=3, large=False)
         d = cv.enc_curve(cur, nt)
         d.update(regime="reduce-generic", t=rng.choice([1, 1, 1, 2]), via=via, tol=rng.choice(["default", "default", "None", "1e-3"]))
         return d
-    cur = gen.curve(rng, nintmax=2)
+    cur = gen.curve(rng, nintmax=2, large=False)
     d = cv.enc_curve(cur, nt)
     p = ref.degree(cur["U"])
     d.update(regime="invalid", bad=rng.choice(["zero", "neg", "float", "str", "toolarge", "none"]), op=rng.choice(["inc", "dec", "set"]))
